@@ -49,6 +49,7 @@ type tsyncScript struct {
 	Divergent    bool     `json:"divergent"`         // the first phase thread installs a private filter (policy B) before the load
 	PriorSync    bool     `json:"prior_sync"`        // the loader first loads another policy (B) WITH thread-sync: every thread then has one filter; the load under test follows
 	Uname26      bool     `json:"uname26"`           // the child runs under the UNAME26 personality: uname(2) reports release 2.6.x
+	BigPolicy    bool     `json:"big_policy"`        // a deny-list policy of 41 groups that compiles to more than 4096 instructions: the kernel cannot take it as one program
 	LogPolicy    bool     `json:"log_policy"`        // the policy under test also has a group and a default with the LOG *action* (which has nothing to do with the log flag)
 	Unpriv       bool     `json:"unprivileged"`      // the child runs as uid 65534: without no_new_privs the kernel refuses (EACCES), and a nil result is only acceptable if every thread is covered
 	OuterDenyAux bool     `json:"outer_deny_aux"`    // the process runs under a filter that answers EPERM to every seccomp(2) operation other than SET_MODE_STRICT / SET_MODE_FILTER (support probes such as GET_ACTION_AVAIL fail, loads work)
@@ -274,6 +275,17 @@ func childTSync(args []string) {
 		pol := kindPolicy("A")
 		if sc.LogPolicy {
 			pol = &seccomp.Policy{DefaultAction: seccomp.ActionLog, Syscalls: []seccomp.SyscallGroup{{Action: seccomp.ActionErrno, Names: []string{"getppid"}}, {Action: seccomp.ActionLog, Names: []string{"getuid"}}}}
+		}
+		if sc.BigPolicy {
+			pol = &seccomp.Policy{DefaultAction: seccomp.ActionAllow}
+			for g := 0; g < 40; g++ {
+				grp := seccomp.SyscallGroup{Action: seccomp.ActionErrno}
+				for i := 0; i < 30; i++ {
+					grp.NamesWithCondtions = append(grp.NamesWithCondtions, seccomp.NameWithConditions{Name: "getsid", Conditions: seccomp.ArgumentConditions{{Argument: uint32(i % 6), Operation: seccomp.Equal, Value: uint64(g*30+i) + 1<<40}}})
+				}
+				pol.Syscalls = append(pol.Syscalls, grp)
+			}
+			pol.Syscalls = append(pol.Syscalls, seccomp.SyscallGroup{Action: seccomp.ActionErrno, Names: []string{"getppid"}})
 		}
 		err := safeLoad(seccomp.Filter{NoNewPrivs: sc.NNP, Flag: symbolicFlags(sc.Flags), Policy: *pol})
 		atomic.StoreInt32(&loaded, 1)
